@@ -160,15 +160,52 @@ static void write_label(vj::W& w, const LabelDesc& d) {
 }
 
 // ---------------------------------------------------------------------------------------------------------------
+// fixups / relocations that CodeHolder registered for the bytes [before, after) of a section: the displacement / address FIELDS
+// of the references the instruction makes (offset relative to `before`, width in bytes).  Read from CodeHolder, not derived.
+// ---------------------------------------------------------------------------------------------------------------
+typedef std::vector<std::pair<int, int>> FxList;
+
+static void fx_add(FxList& fx, long off, int size) {
+  std::pair<int, int> f(int(off), size);
+  if (std::find(fx.begin(), fx.end(), f) == fx.end()) fx.push_back(f);
+}
+
+static FxList collect_fx(CodeHolder& code, Section* sec, size_t before, size_t after, size_t reloc_before, const std::vector<uint32_t>& label_ids) {
+  FxList fx;
+  Span<RelocEntry*> rel = code.reloc_entries();
+  for (size_t i = reloc_before; i < rel.size(); i++) {
+    RelocEntry* re = rel[i];
+    if (re->source_section_id() != sec->section_id() || re->source_offset() < before || re->source_offset() >= after) continue;
+    fx_add(fx, long(re->source_offset() + re->format().value_offset() - before), int(re->format().value_size()));
+  }
+  auto walk = [&](Fixup* f) {
+    for (; f; f = f->next)
+      if (f->section_id == sec->section_id() && f->offset >= before && f->offset < after)
+        fx_add(fx, long(f->offset + f->format.value_offset() - before), int(f->format.value_size()));
+  };
+  for (uint32_t id : label_ids) if (code.is_label_valid(id)) walk(code.label_entry_of(id).unresolved_fixups());
+  walk(code._fixups);
+  std::sort(fx.begin(), fx.end());
+  return fx;
+}
+
+static void write_fx(vj::W& w, const FxList& fx) {
+  w.key("fx").beginArr();
+  for (auto& f : fx) { w.beginArr().val(f.first).val(f.second).endArr(); }
+  w.endArr();
+}
+
+// ---------------------------------------------------------------------------------------------------------------
 // x86
 // ---------------------------------------------------------------------------------------------------------------
 using x86forms::Inst; using x86forms::Opd;
 
 struct XMode {
-  int bits = 64; Environment env; CodeHolder code; x86::Assembler* a = nullptr; StringLogger lg;
+  int bits = 64; Environment env; CodeHolder code; x86::Assembler* a = nullptr; StringLogger lg; Section* sec2 = nullptr;
   void init(int b) { bits = b; env = Environment(b == 64 ? Arch::kX64 : Arch::kX86); reset(); }
   void reset() {
     delete a; code.reset(); code.init(env);
+    sec2 = nullptr; code.new_section(Out<Section*>(sec2), ".data2", SIZE_MAX, SectionFlags::kNone, 8);
     a = new x86::Assembler(&code);
     a->add_diagnostic_options(DiagnosticOptions::kValidateAssembler);
     a->set_logger(&lg);
@@ -176,78 +213,127 @@ struct XMode {
 };
 
 static const uint8_t g_zeros[256] = {0};
-static long g_f = 0, g_l = 0;
+static long g_f = 0, g_l = 0, g_lm_f = 0, g_lm_l = 0;
 
-static void x86_begin(vj::W& w, const Inst& in, const char* leg, uint32_t fl, const std::vector<LabelDesc>& lbl) {
-  w.beginObj().kv("a", "x86").kv("leg", leg);
-  x86forms::write_request(w, in);
-  w.key("lbl").beginArr(); for (const LabelDesc& d : lbl) write_label(w, d); w.endArr();
-  w.kv("fl", (long long)fl);
+// the request part of an observation: x86forms::write_request plus memory operands whose base is a label ("bt":"lb","lb":{label})
+static void x86_write_request(vj::W& w, const Inst& ob, const std::map<size_t, LabelDesc>& memlb) {
+  if (memlb.empty()) { x86forms::write_request(w, ob); return; }
+  w.kv("f", ob.f).kv("n", ob.n).kv("m", ob.m);
+  w.key("ops").beginArr();
+  for (size_t j = 0; j < ob.ops.size(); j++) {
+    const Opd& o = ob.ops[j];
+    w.beginObj();
+    char ts[2] = {o.t, 0};
+    w.kv("t", (const char*)ts);
+    if (o.t == 'r') { w.kv("c", o.c).kv("id", o.id); }
+    else if (o.t == 'm') {
+      w.kv("sz", o.sz).kv("sg", o.sg).kv("bt", o.bt).kv("b", o.b).kv("it", o.it).kv("i", o.i).kv("sh", o.sh).kv("bc", o.bc).kv("at", o.at);
+      x86forms::bytes8(w, "d", o.d);
+      w.kv("dv", std::to_string((long long)o.d));
+      auto it = memlb.find(j);
+      if (it != memlb.end()) { w.key("lb"); write_label(w, it->second); }
+    } else if (o.t == 'i') { x86forms::bytes8(w, "v", o.v); w.kv("iv", std::to_string((long long)o.v)); }
+    else { w.kv("id", o.id).kv("fwd", o.fwd).kv("pad", o.pad); }
+    w.endObj();
+  }
+  w.endArr();
+  w.kv("k", ob.k).kv("z", ob.z).kv("er", ob.er).kv("sae", ob.sae).kv("opt", (long long)ob.opt);
 }
 
-// one request: leg F, then leg L (when accepted)
-static void x86_case(XMode& md, Inst in, FILE* out, uint64_t h, bool with_comment) {
+struct XCfg {
+  bool doF = true, doL = true;
+  uint32_t flF = 0, flL = 0;
+  uint64_t layout = 0;
+  std::string ic;
+  std::vector<int> kinds;      // label kinds of the label operands, in order (missing: rotation by `rot`)
+  int mkind = 0;               // label kind of a label-based memory operand
+  int rot = 0;
+  int lst = -1;                // state of the referenced label at emit time: 0 unbound (bound later), 1 bound before, 2 bound in another section; -1: by the descriptor (fwd)
+};
+
+// one request: leg F, then leg L (when accepted).  Returns true when the assembler accepted it.
+static bool x86_exec(XMode& md, Inst in, const XCfg& cfg, FILE* out, bool lmem_stat = false) {
   x86::Assembler& a = *md.a;
   InstId id = InstAPI::string_to_inst_id(md.env.arch(), in.n.c_str(), in.n.size());
-  if (id == BaseInst::kIdNone || in.ops.size() > 6) return;
+  if (id == BaseInst::kIdNone || in.ops.size() > 6) return false;
   if (md.code.text_section()->buffer().size() > (8u << 20) || md.code.label_count() > 200000) md.reset();
-  Operand_ ops[6]; size_t n = in.ops.size();
-  std::vector<LabelDesc> lbl; Label fwd; bool has_fwd = false;
-  int kind = int(h % 5);
+  Operand_ ops[6]; size_t n = in.ops.size(), li = 0;
+  std::vector<LabelDesc> lbl; std::map<size_t, LabelDesc> memlb; std::vector<Label> later; std::vector<uint32_t> lids;
+  auto place = [&](Label L, int st, int pad) {
+    if (st == 0) later.push_back(L);
+    else if (st == 1) { a.bind(L); if (pad) a.embed(g_zeros, size_t(pad)); }
+    else { a.section(md.sec2); a.bind(L); a.embed(g_zeros, 8); a.section(md.code.text_section()); }
+  };
   for (size_t j = 0; j < n; j++) {
     Opd& o = in.ops[j];
-    if (!x86forms::build_operand(o, ops[j])) {
-      LabelDesc d; Label L = make_label(*md.a, (kind + int(j)) % 5, d);
-      if (o.fwd) { fwd = L; has_fwd = true; }
-      else { a.bind(L); int pad = o.pad % 140; if (pad) a.embed(g_zeros, size_t(pad)); }
-      ops[j] = L; lbl.push_back(d);
+    if (o.t == 'm' && o.bt == "lb") {
+      LabelDesc d; Label L = make_label(a, cfg.mkind, d);
+      place(L, cfg.lst < 0 ? 0 : cfg.lst, 4);
+      x86::Mem m = x86::ptr(L, int32_t(o.d));
+      m.set_size(uint32_t(o.sz));
+      if (o.sg) m.set_segment(uint32_t(o.sg));
+      if (o.bc) { int lg2 = 0; while ((1 << lg2) < o.bc) lg2++; m.set_broadcast(x86::Mem::Broadcast(lg2)); }
+      ops[j] = m; memlb[j] = d; lids.push_back(L.id());
+    }
+    else if (!x86forms::build_operand(o, ops[j])) {
+      int kind = li < cfg.kinds.size() ? cfg.kinds[li] : (cfg.rot + int(j)) % 5; li++;
+      LabelDesc d; Label L = make_label(a, kind, d);
+      place(L, cfg.lst < 0 ? (o.fwd ? 0 : 1) : cfg.lst, o.pad % 140);
+      ops[j] = L; lbl.push_back(d); lids.push_back(L.id());
     }
   }
   InstOptions io = x86forms::inst_options(in);
   RegOnly extra; extra.reset();
   if (in.k) extra.init(x86::k(in.k));
-  // ---- leg F
-  {
-    uint32_t fl = flags_of(uint32_t(h >> 8) & 255);
+  auto begin = [&](vj::W& w, const char* leg, uint32_t fl) {
+    w.beginObj().kv("a", "x86").kv("leg", leg);
+    x86_write_request(w, in, memlb);
+    w.key("lbl").beginArr(); for (const LabelDesc& d : lbl) write_label(w, d); w.endArr();
+    w.kv("lst", cfg.lst).kv("fl", (long long)fl);
+  };
+  if (cfg.doF) {
     String sb;
-    Formatter::format_instruction(sb, FormatFlags(fl), md.a, md.env.arch(), BaseInst(id, io, extra), Span<const Operand_>(ops, n));
-    vj::W w; x86_begin(w, in, "F", fl, lbl);
+    Formatter::format_instruction(sb, FormatFlags(cfg.flF), md.a, md.env.arch(), BaseInst(id, io, extra), Span<const Operand_>(ops, n));
+    vj::W w; begin(w, "F", cfg.flF);
     w.kv("tx", sb.data());
     write_tokens(w, "tk", lex(std::string(sb.data(), sb.size())));
-    w.endObj(); w.emit(out); g_f++;
+    w.endObj(); w.emit(out); (lmem_stat ? g_lm_f : g_f)++;
   }
-  // ---- leg L
-  {
-    uint32_t fl = flags_of(uint32_t(h >> 16) & 255);
-    if ((h >> 24) % 4 != 0) fl |= 1;
-    md.lg.set_flags(FormatFlags(fl));
-    vary_layout(md.lg, h >> 28);
-    std::string ic;
-    if (with_comment) { ic = "note " + std::to_string(h % 1000) + " r" + std::to_string((h >> 5) % 97); a.set_inline_comment(ic.c_str()); }
+  bool ok = false;
+  if (cfg.doL) {
+    md.lg.set_flags(FormatFlags(cfg.flL));
+    vary_layout(md.lg, cfg.layout);
+    if (!cfg.ic.empty()) a.set_inline_comment(cfg.ic.c_str());
     a.set_inst_options(io);
     if (in.k) a.set_extra_reg(x86::k(in.k)); else a.reset_extra_reg();
     md.lg.clear();
-    size_t before = a.offset();
+    size_t before = a.offset(), rb = md.code.reloc_entries().size();
     Error e = a.emit_op_array(id, ops, n);
     size_t after = a.offset();
     a.reset_inst_options(); a.reset_extra_reg(); a.reset_inline_comment();
     if (e == Error::kOk) {
+      ok = true;
       std::vector<std::string> lines = split_lines(md.lg.data(), md.lg.data_size());
-      vj::W w; x86_begin(w, in, "L", fl, lbl);
+      vj::W w; begin(w, "L", cfg.flL);
       w.kv("nl", (long long)lines.size());
-      Line l = split_line(lines.empty() ? std::string() : lines[0], (fl & 1) != 0);
+      Line l = split_line(lines.empty() ? std::string() : lines[0], (cfg.flL & 1) != 0);
       w.kv("tx", l.raw);
       write_tokens(w, "tk", lex(l.text));
       write_ints(w, "hx", hex_column(l.hex));
-      w.kv("ic", ic).kv("cm", l.comment);
+      w.kv("ic", cfg.ic).kv("cm", l.comment);
       write_bytes(w, "b", md.code.text_section()->buffer().data() + before, after - before);
-      w.endObj(); w.emit(out); g_l++;
+      write_fx(w, collect_fx(md.code, md.code.text_section(), before, after, rb, lids));
+      w.endObj(); w.emit(out); (lmem_stat ? g_lm_l : g_l)++;
     }
     md.lg.clear();
   }
-  if (has_fwd) a.bind(fwd);
+  for (Label& L : later) a.bind(L);
   md.lg.clear();
+  return ok;
 }
+
+// immediates with pairwise distinct non-zero bytes, by width
+static int64_t distinct_imm(int bits) { return bits <= 8 ? 0x7A : bits <= 16 ? 0x3322 : bits <= 32 ? 0x44332211 : 0x7766554433221108ll; }
 
 static int cmd_x86(int argc, char** argv) {
   if (argc < 6) return 2;
@@ -261,25 +347,59 @@ static int cmd_x86(int argc, char** argv) {
   FILE* out = fopen(argv[3], "w");
   if (!out) return 3;
   uint64_t ctr = 0, seed = vj::env_seed();
+  int lm_rounds = x86forms::g_gen.thorough ? 3 : 1;
   for (const x86forms::Form& f : forms) {
     if (f.id % nshards != shard) continue;
     size_t rot = size_t(seed * 7 + f.id);
+    bool rm_mem = false;
+    for (const x86forms::FOp& fo : f.ops) if (fo.fld == "rm" && fo.msz >= 0 && fo.vsib.empty()) rm_mem = true;
     for (int pass = 0; pass < 2; pass++) {
       XMode& md = pass == 0 ? m64 : m32;
+      int lm = 0, lj = 0;
       x86forms::instantiate(f, md.bits, rot + (pass ? 3 : 0), [&](Inst& in) {
         uint64_t h = mix(++ctr * 0x9E3779B97F4A7C15ull + seed + uint64_t(f.id) * 1315423911ull);
+        // ---- label-based memory operand / label operand in every state, combined with the form's immediate (distinct non-zero bytes)
+        bool has_m = false, has_l = false;
+        for (const Opd& o : in.ops) { if (o.t == 'm') has_m = true; if (o.t == 'l') has_l = true; }
+        if ((rm_mem && has_m && lm < 3 * lm_rounds) || (has_l && lj < 3 * lm_rounds)) {
+          Inst v = in;
+          int st = has_m ? lm++ % 3 : lj++ % 3;
+          if (has_m) for (Opd& o : v.ops) if (o.t == 'm') {
+            Opd m; m.t = 'm'; m.sz = o.sz; m.bc = o.bc; m.sg = (st == 1 && o.sg >= 5) ? o.sg : 0; m.bt = "lb";
+            static const int64_t ds[] = {0, 16, -8, 0x1230};
+            m.d = ds[(lm + f.id) % 4];
+            o = m; break;
+          }
+          size_t fi = 0;
+          for (Opd& o : v.ops) if (o.t == 'i') {
+            while (fi < f.ops.size() && !(f.ops[fi].ibits || f.ops[fi].iconst >= 0)) fi++;
+            if (fi < f.ops.size() && f.ops[fi].iconst < 0) o.v = distinct_imm(f.ops[fi].ibits);
+            fi++;
+          }
+          v.opt &= ~uint32_t(x86forms::O_LOCK | x86forms::O_XACQ | x86forms::O_XREL | x86forms::O_MODMR | x86forms::O_MODRM);
+          uint64_t g = mix(h ^ 0x5bd1e995);
+          XCfg c; c.flF = flags_of(uint32_t(g >> 8) & 255); c.flL = flags_of(uint32_t(g >> 16) & 255) | 1; c.layout = g >> 28;
+          c.mkind = int(g % 5); c.rot = int((g >> 3) % 5); c.lst = st; c.doF = st == 0;
+          bool ok = x86_exec(md, v, c, out, true);
+          if (!ok && has_m) lm--;          // not accepted in this shape (e.g. an implicit memory operand): try the next instantiation
+          if (!ok && !has_m) lj--;
+        }
         if (h % stride != 0) return;
         h = mix(h);
-        x86_case(md, in, out, h, (h >> 40) % 5 == 0);
+        XCfg c; c.flF = flags_of(uint32_t(h >> 8) & 255); c.flL = flags_of(uint32_t(h >> 16) & 255);
+        if ((h >> 24) % 4 != 0) c.flL |= 1;
+        c.layout = h >> 28; c.rot = int(h % 5);
+        if ((h >> 40) % 5 == 0) c.ic = "note " + std::to_string(h % 1000) + " r" + std::to_string((h >> 5) % 97);
+        x86_exec(md, in, c, out);
       });
     }
   }
   fclose(out);
-  fprintf(stderr, "fmtobs x86: %llu instantiations, F=%ld L=%ld\n", (unsigned long long)ctr, g_f, g_l);
+  fprintf(stderr, "fmtobs x86: %llu instantiations, F=%ld L=%ld, label-reference variants F=%ld L=%ld\n", (unsigned long long)ctr, g_f, g_l, g_lm_f, g_lm_l);
   return 0;
 }
 
-// replay of recorded x86 F / L observations (physical registers; labels are re-created with the recorded kinds)
+// replay of recorded x86 F / L observations (physical registers; labels are re-created with the recorded kinds and states)
 static int cmd_replay(int argc, char** argv) {
   if (argc < 4) return 2;
   vj::Rng rng(vj::env_seed()); x86forms::g_gen.rng = &rng;
@@ -291,54 +411,12 @@ static int cmd_replay(int argc, char** argv) {
     std::string leg = v["leg"].s();
     if (leg != "F" && leg != "L") continue;
     Inst in = x86forms::read_request(v);
-    XMode& md = in.m == 64 ? m64 : m32;
-    x86::Assembler& a = *md.a;
-    InstId id = InstAPI::string_to_inst_id(md.env.arch(), in.n.c_str(), in.n.size());
-    if (id == BaseInst::kIdNone) continue;
-    Operand_ ops[6]; size_t n = in.ops.size(), li = 0;
-    std::vector<LabelDesc> lbl; Label fwd; bool has_fwd = false;
-    for (size_t j = 0; j < n && j < 6; j++) {
-      Opd& o = in.ops[j];
-      if (!x86forms::build_operand(o, ops[j])) {
-        int kind = v.has("lbl") && li < v["lbl"].size() ? int(v["lbl"][li]["kind"].i()) : 0; li++;
-        LabelDesc d; Label L = make_label(a, kind, d);
-        if (o.fwd) { fwd = L; has_fwd = true; } else { a.bind(L); int pad = o.pad % 140; if (pad) a.embed(g_zeros, size_t(pad)); }
-        ops[j] = L; lbl.push_back(d);
-      }
-    }
-    InstOptions io = x86forms::inst_options(in);
-    RegOnly extra; extra.reset(); if (in.k) extra.init(x86::k(in.k));
-    uint32_t fl = uint32_t(v["fl"].i());
-    if (leg == "F") {
-      String sb;
-      Formatter::format_instruction(sb, FormatFlags(fl), md.a, md.env.arch(), BaseInst(id, io, extra), Span<const Operand_>(ops, n));
-      vj::W w; x86_begin(w, in, "F", fl, lbl);
-      w.kv("tx", sb.data()); write_tokens(w, "tk", lex(std::string(sb.data(), sb.size())));
-      w.endObj(); w.emit(out);
-    } else {
-      md.lg.set_flags(FormatFlags(fl));
-      std::string ic = v.has("ic") ? v["ic"].s() : std::string();
-      if (!ic.empty()) a.set_inline_comment(ic.c_str());
-      a.set_inst_options(io);
-      if (in.k) a.set_extra_reg(x86::k(in.k)); else a.reset_extra_reg();
-      md.lg.clear();
-      size_t before = a.offset();
-      Error e = a.emit_op_array(id, ops, n);
-      size_t after = a.offset();
-      a.reset_inst_options(); a.reset_extra_reg(); a.reset_inline_comment();
-      if (e == Error::kOk) {
-        std::vector<std::string> lines = split_lines(md.lg.data(), md.lg.data_size());
-        vj::W w; x86_begin(w, in, "L", fl, lbl);
-        w.kv("nl", (long long)lines.size());
-        Line l = split_line(lines.empty() ? std::string() : lines[0], (fl & 1) != 0);
-        w.kv("tx", l.raw); write_tokens(w, "tk", lex(l.text)); write_ints(w, "hx", hex_column(l.hex));
-        w.kv("ic", ic).kv("cm", l.comment);
-        write_bytes(w, "b", md.code.text_section()->buffer().data() + before, after - before);
-        w.endObj(); w.emit(out);
-      }
-    }
-    if (has_fwd) a.bind(fwd);
-    md.lg.clear();
+    XCfg c; c.doF = leg == "F"; c.doL = leg == "L"; c.flF = c.flL = uint32_t(v["fl"].i());
+    if (v.has("ic")) c.ic = v["ic"].s();
+    if (v.has("lst")) c.lst = int(v["lst"].i());
+    if (v.has("lbl")) for (size_t j = 0; j < v["lbl"].size(); j++) c.kinds.push_back(int(v["lbl"][j]["kind"].i()));
+    for (size_t j = 0; j < v["ops"].size(); j++) if (v["ops"][j].has("lb")) c.mkind = int(v["ops"][j]["lb"]["kind"].i());
+    x86_exec(in.m == 64 ? m64 : m32, in, c, out);
   }
   fclose(out);
   return 0;
@@ -596,41 +674,57 @@ static int cmd_a64x(int argc, char** argv) {
   uint64_t ctr = 0;
   auto nextfl = [&]() { return flags_of(uint32_t(mix(++ctr + 77 + vj::env_seed()) & 255)); };
   AMode md; md.reset();
-  struct LI { const char* n; InstId id; int shape; } li[] = {{"b", a64::Inst::kIdB, 0}, {"bl", a64::Inst::kIdBl, 0}, {"cbz", a64::Inst::kIdCbz, 1}, {"cbnz", a64::Inst::kIdCbnz, 1},
-                                                             {"adr", a64::Inst::kIdAdr, 1}, {"tbz", a64::Inst::kIdTbz, 2}, {"ldr", a64::Inst::kIdLdr, 1}};
-  for (int kind = 0; kind < 5; kind++) for (const LI& x : li) for (int fwd = 0; fwd < 2; fwd++) {
+  // shape: 0 label | 1 Xt,label | 2 Xt,#bit,label | 3 Wt,label | 4 St/Dt/Qt,label (t = reg letter) | 5 b.<cond> label
+  struct LI { const char* n; InstId id; int shape; const char* t; } li[] = {
+    {"b", a64::Inst::kIdB, 0, ""}, {"bl", a64::Inst::kIdBl, 0, ""}, {"cbz", a64::Inst::kIdCbz, 1, ""}, {"cbnz", a64::Inst::kIdCbnz, 3, ""},
+    {"adr", a64::Inst::kIdAdr, 1, ""}, {"adrp", a64::Inst::kIdAdrp, 1, ""}, {"tbz", a64::Inst::kIdTbz, 2, ""}, {"tbnz", a64::Inst::kIdTbnz, 2, ""},
+    {"ldr", a64::Inst::kIdLdr, 1, ""}, {"ldr", a64::Inst::kIdLdr, 3, ""}, {"ldrsw", a64::Inst::kIdLdrsw, 1, ""},
+    {"ldr", a64::Inst::kIdLdr_v, 4, "s"}, {"ldr", a64::Inst::kIdLdr_v, 4, "d"}, {"ldr", a64::Inst::kIdLdr_v, 4, "q"}, {"b", a64::Inst::kIdB, 5, ""}};
+  Section* sec2 = nullptr; md.code.new_section(Out<Section*>(sec2), ".data2", SIZE_MAX, SectionFlags::kNone, 8);
+  for (int kind = 0; kind < 5; kind++) for (const LI& x : li) for (int st = 0; st < 3; st++) {      // st: 0 unbound at emit time, 1 bound before, 2 bound in another section
     LabelDesc d; Label L = make_label(*md.a, kind, d);
     md.lg.clear();
-    if (!fwd) { md.a->bind(L); md.a->nop(); }
-    int rid = int((ctr * 5 + 3) % 31);
+    if (st == 1) { md.a->bind(L); md.a->nop(); }
+    if (st == 2) { md.a->section(sec2); md.a->bind(L); md.a->embed(g_zeros, 8); md.a->section(md.code.text_section()); }
+    int rid = int((ctr * 5 + 3) % 31), cc = int((ctr * 3 + kind) % 14);
     Operand_ ops[3]; size_t n = 0;
-    if (x.shape >= 1) ops[n++] = a64::x(rid);
-    if (x.shape == 2) ops[n++] = Imm(5 + kind);
-    ops[n++] = L;
+    InstId iid = x.id;
+    if (x.shape == 1 || x.shape == 2) ops[n++] = a64::x(rid);
+    if (x.shape == 3) ops[n++] = a64::w(rid);
+    if (x.shape == 4) ops[n++] = x.t[0] == 's' ? a64::Vec::make_v32(rid) : x.t[0] == 'd' ? a64::Vec::make_v64(rid) : a64::Vec::make_v128(rid);
+    if (x.shape == 2) ops[n++] = Imm(5 + kind * 7);
+    if (x.shape == 5) { arm::CondCode c; a64forms::cond_by_name(a64forms::kCondNames[cc], c); iid = BaseInst::compose_arm_inst_id(iid, c); }
+    bool lit = std::string(x.n).compare(0, 3, "ldr") == 0;           // literal loads take the label as a memory operand: ldr Xt, [label]
+    if (lit) ops[n++] = a64::ptr(L); else ops[n++] = L;
     for (int leg = 0; leg < 2; leg++) {
       uint32_t fl = nextfl() | (leg ? 1u : 0u);
       vj::W w; w.beginObj().kv("n", x.n).kv("mn", x.n).key("o").beginArr();
-      if (x.shape >= 1) w.beginObj().kv("k", "r").kv("t", "x").kv("id", rid).kv("sp", 0).endObj();
-      if (x.shape == 2) { w.beginObj().kv("k", "i").kv("v", 5 + kind).kv("big", 0); w.wide("l", uint64_t(5 + kind)); w.endObj(); }
-      w.beginObj().kv("k", "lb").key("lb"); write_label(w, d); w.endObj();
-      w.endArr().kv("a", "a64").kv("leg", leg ? "L" : "F").kv("fl", (long long)fl);
+      if (x.shape == 1 || x.shape == 2) w.beginObj().kv("k", "r").kv("t", "x").kv("id", rid).kv("sp", 0).endObj();
+      if (x.shape == 3) w.beginObj().kv("k", "r").kv("t", "w").kv("id", rid).kv("sp", 0).endObj();
+      if (x.shape == 4) w.beginObj().kv("k", "v").kv("t", x.t).kv("id", rid).kv("arr", "").kv("ei", -1).endObj();
+      if (x.shape == 2) { w.beginObj().kv("k", "i").kv("v", 5 + kind * 7).kv("big", 0); w.wide("l", uint64_t(5 + kind * 7)); w.endObj(); }
+      if (x.shape == 5) w.beginObj().kv("k", "cc").kv("c", cc).endObj();
+      w.beginObj().kv("k", lit ? "ml" : "lb").key("lb"); write_label(w, d); w.endObj();
+      w.endArr().kv("a", "a64").kv("leg", leg ? "L" : "F").kv("lst", st).kv("fl", (long long)fl);
       if (!leg) {
-        String sb; Formatter::format_instruction(sb, FormatFlags(fl), md.a, Arch::kAArch64, BaseInst(x.id), Span<const Operand_>(ops, n));
+        String sb; Formatter::format_instruction(sb, FormatFlags(fl), md.a, Arch::kAArch64, BaseInst(iid), Span<const Operand_>(ops, n));
         w.kv("tx", sb.data()); write_tokens(w, "tk", lex(std::string(sb.data(), sb.size())));
       } else {
         md.lg.set_flags(FormatFlags(fl)); md.lg.clear();
-        size_t before = md.a->offset();
-        Error e = md.a->emit_op_array(x.id, ops, n);
+        size_t before = md.a->offset(), rb = md.code.reloc_entries().size();
+        Error e = md.a->emit_op_array(iid, ops, n);
         size_t after = md.a->offset();
         if (e != Error::kOk) continue;
         std::vector<std::string> lines = split_lines(md.lg.data(), md.lg.data_size());
         Line l = split_line(lines.empty() ? std::string() : lines[0], true);
         w.kv("nl", (long long)lines.size()).kv("tx", l.raw); write_tokens(w, "tk", lex(l.text)); write_ints(w, "hx", hex_column(l.hex)); w.kv("ic", "").kv("cm", l.comment);
         write_bytes(w, "b", md.a->buffer_data() + before, after - before);
+        write_fx(w, collect_fx(md.code, md.code.text_section(), before, after, rb, std::vector<uint32_t>{L.id()}));
       }
       w.endObj(); w.emit(out);
     }
-    if (fwd) md.a->bind(L);
+    if (st == 0) md.a->bind(L);
+    ctr++;
   }
   // virtual registers
   {
@@ -720,24 +814,59 @@ static int cmd_prog(int argc, char** argv) {
         std::vector<LabelDesc> lbl;
         std::string reqjson;
         bool ok = false;
+        std::vector<uint32_t> lids;
+        int imm_try = -1;                           // >= 0: the request is re-tried with narrower distinct-byte immediates until the assembler takes it
+        Inst xin;
+        std::map<size_t, LabelDesc> memlb;
         if (!isa64) {
-          Inst in = pool[rng.below(pool.size())];
-          id = InstAPI::string_to_inst_id(Arch::kX64, in.n.c_str(), in.n.size());
-          if (id != BaseInst::kIdNone && in.ops.size() <= 6) {
-            n = in.ops.size(); ok = true;
-            for (size_t j = 0; j < n; j++) if (!x86forms::build_operand(in.ops[j], ops[j])) { ProgLabel& pl = labels[rng.below(labels.size())]; ops[j] = pl.L; lbl.push_back(pl.d); }
-            io = x86forms::inst_options(in); kreg = in.k;
-            vj::W q; q.beginObj(); x86forms::write_request(q, in); q.endObj(); reqjson = q.s.substr(1, q.s.size() - 2);
+          xin = pool[rng.below(pool.size())];
+          if (rng.below(10) == 0) {                 // a jump / call to a program label (rel8 / rel32, bound or not, same or other section)
+            static const char* J[] = {"jmp", "call", "jnz", "jb", "jecxz", "loop", "jmp", "jle"};
+            Inst jn; jn.f = 0; jn.n = J[rng.below(8)]; jn.m = 64;
+            Opd o; o.t = 'l'; jn.ops.push_back(o);
+            if (rng.below(4) == 0 && jn.n[0] == 'j' && jn.n != "jecxz") jn.opt |= rng.below(2) ? x86forms::O_SHORT : x86forms::O_LONG;
+            xin = jn;
           }
-        } else if (rng.below(6) == 0) {             // a branch to a program label
+          id = InstAPI::string_to_inst_id(Arch::kX64, xin.n.c_str(), xin.n.size());
+          if (id != BaseInst::kIdNone && xin.ops.size() <= 6) {
+            n = xin.ops.size(); ok = true;
+            bool has_m = false, has_i = false;
+            for (const Opd& o : xin.ops) { if (o.t == 'm' && o.it.find("mm") == std::string::npos) has_m = true; if (o.t == 'i') has_i = true; }
+            if (has_m && rng.below(3) == 0) {         // memory operand on a program label (bound, unbound or bound in the other section - whatever the program did so far)
+              for (size_t j = 0; j < n; j++) if (xin.ops[j].t == 'm') {
+                Opd m; m.t = 'm'; m.sz = xin.ops[j].sz; m.bc = xin.ops[j].bc; m.bt = "lb"; m.d = int64_t(rng.below(5)) * 8 - 8;
+                xin.ops[j] = m;
+                ProgLabel& pl = labels[rng.below(labels.size())];
+                x86::Mem mm = x86::ptr(pl.L, int32_t(m.d)); mm.set_size(uint32_t(m.sz));
+                if (m.bc) { int lg2 = 0; while ((1 << lg2) < m.bc) lg2++; mm.set_broadcast(x86::Mem::Broadcast(lg2)); }
+                ops[j] = mm; memlb[j] = pl.d; lids.push_back(pl.L.id());
+                break;
+              }
+              xin.opt &= ~uint32_t(x86forms::O_LOCK | x86forms::O_XACQ | x86forms::O_XREL | x86forms::O_MODMR | x86forms::O_MODRM);
+              if (has_i) imm_try = 0;
+            }
+            for (size_t j = 0; j < n; j++) {
+              if (memlb.count(j)) continue;
+              if (!x86forms::build_operand(xin.ops[j], ops[j])) { ProgLabel& pl = labels[rng.below(labels.size())]; ops[j] = pl.L; lbl.push_back(pl.d); lids.push_back(pl.L.id()); }
+            }
+            io = x86forms::inst_options(xin); kreg = xin.k;
+          }
+        } else if (rng.below(5) == 0) {             // a reference to a program label
           ProgLabel& pl = labels[rng.below(labels.size())];
-          bool cb = rng.below(2) == 0; int rid = int(rng.below(31));
-          id = cb ? InstId(a64::Inst::kIdCbz) : InstId(a64::Inst::kIdB);
-          if (cb) ops[n++] = a64::x(rid);
-          ops[n++] = pl.L; lbl.push_back(pl.d); ok = true;
-          vj::W q; q.beginObj().kv("n", cb ? "cbz" : "b").kv("mn", cb ? "cbz" : "b").key("o").beginArr();
-          if (cb) q.beginObj().kv("k", "r").kv("t", "x").kv("id", rid).kv("sp", 0).endObj();
-          q.beginObj().kv("k", "lb").key("lb"); write_label(q, pl.d); q.endObj().endArr().endObj();
+          static const struct { const char* n; InstId id; int shape; } LI[] = {{"b", a64::Inst::kIdB, 0}, {"cbz", a64::Inst::kIdCbz, 1}, {"adr", a64::Inst::kIdAdr, 1},
+                                                                              {"ldr", a64::Inst::kIdLdr, 1}, {"tbz", a64::Inst::kIdTbz, 2}, {"bl", a64::Inst::kIdBl, 0}};
+          const auto& x = LI[rng.below(6)];
+          int rid = int(rng.below(31)), bit = int(rng.below(64));
+          id = x.id;
+          if (x.shape >= 1) ops[n++] = a64::x(rid);
+          if (x.shape == 2) ops[n++] = Imm(bit);
+          bool lit = x.id == a64::Inst::kIdLdr;
+          if (lit) ops[n++] = a64::ptr(pl.L); else ops[n++] = pl.L;
+          lbl.push_back(pl.d); lids.push_back(pl.L.id()); ok = true;
+          vj::W q; q.beginObj().kv("n", x.n).kv("mn", x.n).key("o").beginArr();
+          if (x.shape >= 1) q.beginObj().kv("k", "r").kv("t", "x").kv("id", rid).kv("sp", 0).endObj();
+          if (x.shape == 2) { q.beginObj().kv("k", "i").kv("v", bit).kv("big", 0); q.wide("l", uint64_t(bit)); q.endObj(); }
+          q.beginObj().kv("k", lit ? "ml" : "lb").key("lb"); write_label(q, pl.d); q.endObj().endArr().endObj();
           reqjson = q.s.substr(1, q.s.size() - 2);
         } else {
           const std::string& cl = acases[rng.below(acases.size())];
@@ -746,16 +875,30 @@ static int cmd_prog(int argc, char** argv) {
         }
         if (!ok) { ci--; continue; }
         std::string ic; if (rng.below(6) == 0) { ic = "why " + std::to_string(rng.below(1000)); a->set_inline_comment(ic.c_str()); }
-        if (!isa64) { a->set_inst_options(io); if (kreg) a->set_extra_reg(x86::k(kreg)); else a->reset_extra_reg(); }
-        Error e = a->emit_op_array(id, ops, n);
-        a->reset_inst_options(); a->reset_extra_reg(); a->reset_inline_comment();
+        size_t rb = code.reloc_entries().size();
+        Error e = Error::kOk;
+        for (;;) {
+          if (imm_try >= 0) {
+            static const int64_t cand[] = {0x7766554433221108ll, 0x44332211, 0x3322, 0x7A};
+            for (size_t j = 0; j < n; j++) if (xin.ops[j].t == 'i') { xin.ops[j].v = cand[imm_try]; ops[j] = Imm(cand[imm_try]); }
+          }
+          if (!isa64) { a->set_inst_options(io); if (kreg) a->set_extra_reg(x86::k(kreg)); else a->reset_extra_reg(); }
+          if (!ic.empty()) a->set_inline_comment(ic.c_str());
+          lg.clear();
+          e = a->emit_op_array(id, ops, n);
+          a->reset_inst_options(); a->reset_extra_reg(); a->reset_inline_comment();
+          if (e == Error::kOk || imm_try < 0 || imm_try >= 3) break;
+          imm_try++;
+        }
         size_t after = a->offset();
         if (e != Error::kOk) { lg.clear(); ci--; continue; }
+        if (!isa64) { vj::W q; q.beginObj(); x86_write_request(q, xin, memlb); q.endObj(); reqjson = q.s.substr(1, q.s.size() - 2); }
         take_lines();
         w.beginObj().kv("c", "inst"); w.s += "," + reqjson; w.first = false;
         w.key("lbl").beginArr(); for (const LabelDesc& d : lbl) write_label(w, d); w.endArr();
         w.kv("ic", ic).kv("sec", (long long)cs->section_id()).kv("off", (long long)before);
         write_bytes(w, "b", cs->buffer().data() + before, after - before);
+        write_fx(w, collect_fx(code, cs, before, after, rb, lids));
       } else if (r < 72) {                            // bind
         ProgLabel* pl = nullptr;
         for (ProgLabel& x : labels) if (!x.bound && rng.below(2)) { pl = &x; break; }
@@ -783,6 +926,18 @@ static int cmd_prog(int argc, char** argv) {
         if (e != Error::kOk) { lg.clear(); ci--; continue; }
         size_t after = a->offset(); take_lines();
         w.beginObj().kv("c", "embed").kv("ts", (long long)ts).kv("sec", (long long)cs->section_id()).kv("off", (long long)before);
+        write_bytes(w, "b", cs->buffer().data() + before, after - before);
+      } else if (r < 91) {                            // embedded label address / label delta
+        ProgLabel& pl = labels[rng.below(labels.size())];
+        bool delta = rng.below(2) == 0;
+        size_t ts = delta ? (size_t(1) << (1 + rng.below(3))) : (isa64 || rng.below(2) ? 8 : 4);
+        ProgLabel& bs = labels[rng.below(labels.size())];
+        Error e = delta ? a->embed_label_delta(pl.L, bs.L, ts) : a->embed_label(pl.L, ts);
+        if (e != Error::kOk) { lg.clear(); ci--; continue; }
+        size_t after = a->offset(); take_lines();
+        w.beginObj().kv("c", delta ? "edelta" : "elabel").kv("ts", (long long)ts).key("lb"); write_label(w, pl.d);
+        if (delta) { w.key("lb2"); write_label(w, bs.d); }
+        w.kv("sec", (long long)cs->section_id()).kv("off", (long long)before);
         write_bytes(w, "b", cs->buffer().data() + before, after - before);
       } else if (r < 95) {                            // comment
         std::string txt = "step " + std::to_string(ci) + " of prog_" + std::to_string(pi) + " x" + std::to_string(rng.below(4096));
